@@ -1,9 +1,9 @@
 //! Discrete-event simulator around the real raft.rs: virtual clock, adversarial network,
 //! client appends, and the property oracles evaluated after every event.
 
-use crate::raft::{Cluster, ClusterSettings, Request, Response};
+use super::raft::{Cluster, ClusterSettings, Request, Response};
 use crate::simclock;
-use crate::store::MemStore;
+use super::store::MemStore;
 use serde::{Deserialize, Serialize};
 use simcore::{Fnv, Rng};
 use std::collections::{BTreeMap, BTreeSet, BinaryHeap};
